@@ -32,6 +32,12 @@ type Copier struct {
 	trans map[Reference]Reference
 	r     Getter
 	w     *Writer
+
+	// added lists the keys entered into trans by CopyReference, in order.
+	// When a copy fails, every entry made since the failing call started is
+	// removed again: objects written in the meantime may refer to the
+	// reference which was never written.
+	added []Reference
 }
 
 // NewCopier creates a new Copier.
@@ -212,27 +218,33 @@ func (c *Copier) CopyReference(obj Reference) (Reference, error) {
 	if ok {
 		return newRef, nil
 	}
+	mark := len(c.added)
 	newRef = c.w.Alloc()
 	c.trans[obj] = newRef
+	c.added = append(c.added, obj)
+	fail := func(err error) (Reference, error) {
+		for _, key := range c.added[mark:] {
+			delete(c.trans, key)
+		}
+		c.added = c.added[:mark]
+		return 0, err
+	}
 
 	// On failure the allocated reference is never written, so it must not
 	// stay in the translation table.
 	val, err := Resolve(c.r, obj)
 	if IsReadError(err) {
-		delete(c.trans, obj)
-		return 0, err
+		return fail(err)
 	}
 	// a reference to a malformed or undefined source object resolves to
 	// null (PDF 2.0, 7.3.10); leave val nil and copy null in its place
 	trans, err := c.Copy(val)
 	if err != nil {
-		delete(c.trans, obj)
-		return 0, err
+		return fail(err)
 	}
 	err = c.w.Put(newRef, trans)
 	if err != nil {
-		delete(c.trans, obj)
-		return 0, err
+		return fail(err)
 	}
 
 	return newRef, nil
